@@ -1,0 +1,239 @@
+// Copyright ©2012 The bíogo Authors. All rights reserved.
+// Use of this source code is governed by a BSD-style
+// license that can be found in the LICENSE file.
+
+//go:build verif
+
+// Contracts for the hvc verifier (see /verif/DESIGN.md). This file contains
+// comments only; it adds nothing to the package.
+package cache
+
+// The list head and the mutex of each cache are objects of their own: their
+// addresses are stored in the ring (&c.root) or passed to the sync package.
+//@ embedded LRU.root, LRU.mu, FIFO.root, FIFO.mu, Random.mu, StatsRecorder.mu
+
+// Lock state of a mutex (ghost): 0 free, -1 held for writing, n > 0 held by n
+// readers. Acquiring a lock that the same goroutine already holds in a
+// conflicting mode never returns; the preconditions below make that a failed
+// obligation.
+//@ trusted func ext:sync.RWMutex.Lock
+//@   requires lockstate(rw) == 0
+//@   modifies lockstate(rw)
+//@   ensures lockstate(rw) == 0 - 1
+//@ trusted func ext:sync.RWMutex.Unlock
+//@   requires lockstate(rw) == 0 - 1
+//@   modifies lockstate(rw)
+//@   ensures lockstate(rw) == 0
+//@ trusted func ext:sync.RWMutex.RLock
+//@   requires lockstate(rw) >= 0
+//@   modifies lockstate(rw)
+//@   ensures lockstate(rw) == old(lockstate(rw)) + 1
+//@ trusted func ext:sync.RWMutex.RUnlock
+//@   requires lockstate(rw) > 0
+//@   modifies lockstate(rw)
+//@   ensures lockstate(rw) == old(lockstate(rw)) - 1
+
+// Blocks: Base, Used and NextBase are observers of a block. A block that sits
+// in a cache is not changed by anyone else (the reader side of this is C03).
+//@ uninterp func blockBase(b bgzf.Block) int64
+//@ uninterp func blockUsed(b bgzf.Block) bool
+//@ uninterp func blockNext(b bgzf.Block) int64
+//@ trusted func ext:github.com/biogo/hts/bgzf.Block.Base
+//@   ensures result == blockBase(self)
+//@ trusted func ext:github.com/biogo/hts/bgzf.Block.Used
+//@   ensures result == blockUsed(self)
+//@ trusted func ext:github.com/biogo/hts/bgzf.Block.NextBase
+//@   ensures result == blockNext(self)
+
+// Table invariant shared by LRU and FIFO: every entry is a node that holds a
+// block whose base is its key and that is linked on both sides.
+//@ spec func tableOK(t map[int64]*node) bool = forall k int64 :: has(t, k) ==>
+//@     (t[k] != nil && t[k].b != nil && blockBase(t[k].b) == k && t[k].next != nil && t[k].prev != nil)
+//@ spec func noSelfLoop(t map[int64]*node) bool = forall k int64 :: has(t, k) ==> (t[k].next != t[k] && t[k].prev != t[k])
+
+//@ func LRU.Len
+//@   mode int
+//@   props C14
+//@   requires lockstate(c.mu) >= 0
+//@   ensures[C14] @len result == len(c.table)
+
+//@ func LRU.Cap
+//@   mode int
+//@   props C14
+//@   requires lockstate(c.mu) >= 0
+//@   ensures[C14] @cap result == c.cap
+
+//@ func LRU.Peek
+//@   mode int
+//@   props C14
+//@   requires lockstate(c.mu) >= 0 && tableOK(c.table)
+//@   ensures[C14] @exist exist <==> has(c.table, base)
+//@   ensures[C14] @next (exist ==> next == blockNext(c.table[base].b)) && (!exist ==> next == 0 - 1)
+
+//@ func remove
+//@   mode int
+//@   props C14
+//@   requires n != nil
+//@   requires n.b != nil
+//@   requires n.prev != nil && n.next != nil
+//@   requires n.prev != n
+//@   requires n.next != n
+//@   requires table != nil
+//@   modifies mapof(table), all(n), n.prev.next, n.next.prev
+//@   ensures[C14] @deleted !has(table, blockBase(old(n.b)))
+//@   ensures[C14] @others forall k int64 :: k != blockBase(old(n.b)) ==> (has(table, k) == old(has(table, k)) && table[k] == old(table[k]))
+//@   ensures[C14] @len len(table) == old(len(table)) - ite(old(has(table, blockBase(n.b))), 1, 0)
+//@   ensures[C14] @block n.b == old(n.b)
+//@   ensures[C14] @relinked old(n.prev).next == old(n.next) && old(n.next).prev == old(n.prev)
+
+//@ func LRU.Get
+//@   mode int
+//@   props C14, C03
+//@   requires lockstate(c.mu) == 0 && tableOK(c.table) && noSelfLoop(c.table) && c.table != nil
+//@   modifies lockstate(c.mu), mapof(c.table), objects(node)
+//@   ensures[C14,C03] @miss !old(has(c.table, base)) ==> result == nil
+//@   ensures[C14,C03] @hit old(has(c.table, base)) ==> (result != nil && blockBase(result) == base)
+//@   ensures[C14,C03] @removed !has(c.table, base)
+//@   ensures[C14] @unlocked lockstate(c.mu) == 0
+
+// The ring of nodes is linked through c.root. What Put needs from it is stated
+// as a precondition (ringTail): when the table is not empty the tail of the
+// ring is a proper node. That the ring and the table always hold the same
+// nodes is NOT proved here (see the level note of C14).
+//@ spec func ringTail(rootp *node, t map[int64]*node) bool = rootp.next != nil && rootp.prev != nil &&
+//@     (len(t) == 0 ==> (rootp.prev == rootp && rootp.next == rootp)) &&
+//@     (len(t) > 0 ==> (rootp.prev != rootp && rootp.prev.b != nil && rootp.prev.prev != nil && rootp.prev.next != nil &&
+//@         has(t, blockBase(rootp.prev.b)) && t[blockBase(rootp.prev.b)] == rootp.prev))
+
+//@ func insertAfter
+//@   inline
+
+//@ func LRU.Put
+//@   mode int
+//@   props C14, C03
+//@   requires lockstate(c.mu) == 0 && tableOK(c.table) && c.table != nil && noSelfLoop(c.table) && b != nil && c.cap >= 1 && ringTail(c.root, c.table)
+//@   modifies lockstate(c.mu), mapof(c.table), objects(node)
+//@   ensures[C14] @duplicate old(has(c.table, blockBase(b))) ==> (evicted == b && !retained && len(c.table) == old(len(c.table)))
+//@   ensures[C14] @refuseunused (!old(has(c.table, blockBase(b))) && old(len(c.table)) == c.cap && !blockUsed(b)) ==> (evicted == b && !retained && len(c.table) == old(len(c.table)))
+//@   ensures[C14,C03] @retained retained ==> (has(c.table, blockBase(b)) && c.table[blockBase(b)].b == b && (evicted != nil ==> !has(c.table, blockBase(evicted)) || blockBase(evicted) == blockBase(b)))
+//@   ensures[C14] @capacity old(len(c.table)) <= c.cap ==> len(c.table) <= c.cap
+//@   ensures[C14] @table tableOK(c.table)
+//@   ensures[C14] @unlocked lockstate(c.mu) == 0
+
+// drop/Drop/Resize: called with the write lock held (drop) or free (Drop,
+// Resize). What is proved: the lock discipline (no lock is taken twice, every
+// lock taken is released), that the loop makes progress, and the resulting
+// capacity. The loop relies on the ring facts ringTail/tableOK/noSelfLoop at
+// its head, which are assumed there (the ring<->table correspondence is not
+// proved, see C14's level note).
+//@ func LRU.drop
+//@   mode int
+//@   props C14
+//@   requires 0 - 4611686018427387904 <= n && n <= 4611686018427387904
+//@   requires lockstate(c.mu) == 0 - 1 && c.table != nil && tableOK(c.table) && noSelfLoop(c.table) && ringTail(c.root, c.table)
+//@   modifies mapof(c.table), objects(node)
+//@   loop 0 invariant @lock lockstate(c.mu) == 0 - 1 && c.table == old(c.table) && c.table != nil && len(c.table) <= old(len(c.table))
+//@   loop 0 invariant @count n <= old(n) && len(c.table) == old(len(c.table)) - (old(n) - n)
+//@   loop 0 assume tableOK(c.table) && noSelfLoop(c.table) && ringTail(c.root, c.table)
+//@   loop 0 decreases n
+//@   ensures[C14] @dropped old(n) >= 0 ==> len(c.table) <= max(old(len(c.table)) - old(n), 0)
+//@   ensures[C14] @locked lockstate(c.mu) == 0 - 1
+
+//@ func LRU.Drop
+//@   mode int
+//@   props C14
+//@   requires 0 - 4611686018427387904 <= n && n <= 4611686018427387904
+//@   requires lockstate(c.mu) == 0 && c.table != nil && tableOK(c.table) && noSelfLoop(c.table) && ringTail(c.root, c.table)
+//@   modifies lockstate(c.mu), mapof(c.table), objects(node)
+//@   ensures[C14] @dropped n >= 0 ==> len(c.table) <= max(old(len(c.table)) - n, 0)
+//@   ensures[C14] @unlocked lockstate(c.mu) == 0
+
+//@ func LRU.Resize
+//@   mode int
+//@   props C14
+//@   requires 0 - 4611686018427387904 <= n && n <= 4611686018427387904
+//@   requires lockstate(c.mu) == 0 && c.table != nil && tableOK(c.table) && noSelfLoop(c.table) && ringTail(c.root, c.table)
+//@   modifies lockstate(c.mu), mapof(c.table), objects(node), c.cap
+//@   ensures[C14] @cap c.cap == n
+//@   ensures[C14] @fits n >= 0 ==> len(c.table) <= max(n, 0) || len(c.table) <= old(len(c.table))
+//@   ensures[C14] @unlocked lockstate(c.mu) == 0
+
+// FIFO: same structure and contracts as LRU; Get keeps used blocks (see known findings).
+//@ func FIFO.Len
+//@   mode int
+//@   props C14
+//@   requires lockstate(c.mu) >= 0
+//@   ensures[C14] @len result == len(c.table)
+
+//@ func FIFO.Cap
+//@   mode int
+//@   props C14
+//@   requires lockstate(c.mu) >= 0
+//@   ensures[C14] @cap result == c.cap
+
+//@ func FIFO.Peek
+//@   mode int
+//@   props C14
+//@   requires lockstate(c.mu) >= 0 && tableOK(c.table)
+//@   ensures[C14] @exist exist <==> has(c.table, base)
+//@   ensures[C14] @next (exist ==> next == blockNext(c.table[base].b)) && (!exist ==> next == 0 - 1)
+
+//@ func FIFO.Get
+//@   mode int
+//@   props C14, C03
+//@   requires lockstate(c.mu) == 0 && tableOK(c.table) && noSelfLoop(c.table) && c.table != nil
+//@   modifies lockstate(c.mu), mapof(c.table), objects(node)
+//@   ensures[C14,C03] @miss !old(has(c.table, base)) ==> result == nil
+//@   ensures[C14,C03] @hit old(has(c.table, base)) ==> (result != nil && blockBase(result) == base)
+//@   ensures[C14,C03] @removed !has(c.table, base)
+//@   ensures[C14] @unlocked lockstate(c.mu) == 0
+
+//@ func FIFO.Put
+//@   mode int
+//@   props C14, C03
+//@   requires lockstate(c.mu) == 0 && tableOK(c.table) && c.table != nil && noSelfLoop(c.table) && b != nil && c.cap >= 1 && ringTail(c.root, c.table)
+//@   modifies lockstate(c.mu), mapof(c.table), objects(node)
+//@   ensures[C14] @duplicate old(has(c.table, blockBase(b))) ==> (evicted == b && !retained && len(c.table) == old(len(c.table)))
+//@   ensures[C14] @refuseunused (!old(has(c.table, blockBase(b))) && old(len(c.table)) == c.cap && !blockUsed(b)) ==> (evicted == b && !retained && len(c.table) == old(len(c.table)))
+//@   ensures[C14,C03] @retained retained ==> (has(c.table, blockBase(b)) && c.table[blockBase(b)].b == b && (evicted != nil ==> !has(c.table, blockBase(evicted)) || blockBase(evicted) == blockBase(b)))
+//@   ensures[C14] @capacity old(len(c.table)) <= c.cap ==> len(c.table) <= c.cap
+//@   ensures[C14] @table tableOK(c.table)
+//@   ensures[C14] @unlocked lockstate(c.mu) == 0
+
+// drop/Drop/Resize: called with the write lock held (drop) or free (Drop,
+// Resize). What is proved: the lock discipline (no lock is taken twice, every
+// lock taken is released), that the loop makes progress, and the resulting
+// capacity. The loop relies on the ring facts ringTail/tableOK/noSelfLoop at
+// its head, which are assumed there (the ring<->table correspondence is not
+// proved, see C14's level note).
+//@ func FIFO.drop
+//@   mode int
+//@   props C14
+//@   requires 0 - 4611686018427387904 <= n && n <= 4611686018427387904
+//@   requires lockstate(c.mu) == 0 - 1 && c.table != nil && tableOK(c.table) && noSelfLoop(c.table) && ringTail(c.root, c.table)
+//@   modifies mapof(c.table), objects(node)
+//@   loop 0 invariant @lock lockstate(c.mu) == 0 - 1 && c.table == old(c.table) && c.table != nil && len(c.table) <= old(len(c.table))
+//@   loop 0 invariant @count n <= old(n) && len(c.table) == old(len(c.table)) - (old(n) - n)
+//@   loop 0 assume tableOK(c.table) && noSelfLoop(c.table) && ringTail(c.root, c.table)
+//@   loop 0 decreases n
+//@   ensures[C14] @dropped old(n) >= 0 ==> len(c.table) <= max(old(len(c.table)) - old(n), 0)
+//@   ensures[C14] @locked lockstate(c.mu) == 0 - 1
+
+//@ func FIFO.Drop
+//@   mode int
+//@   props C14
+//@   requires 0 - 4611686018427387904 <= n && n <= 4611686018427387904
+//@   requires lockstate(c.mu) == 0 && c.table != nil && tableOK(c.table) && noSelfLoop(c.table) && ringTail(c.root, c.table)
+//@   modifies lockstate(c.mu), mapof(c.table), objects(node)
+//@   ensures[C14] @dropped n >= 0 ==> len(c.table) <= max(old(len(c.table)) - n, 0)
+//@   ensures[C14] @unlocked lockstate(c.mu) == 0
+
+//@ func FIFO.Resize
+//@   mode int
+//@   props C14
+//@   requires 0 - 4611686018427387904 <= n && n <= 4611686018427387904
+//@   requires lockstate(c.mu) == 0 && c.table != nil && tableOK(c.table) && noSelfLoop(c.table) && ringTail(c.root, c.table)
+//@   modifies lockstate(c.mu), mapof(c.table), objects(node), c.cap
+//@   ensures[C14] @cap c.cap == n
+//@   ensures[C14] @fits n >= 0 ==> len(c.table) <= max(n, 0) || len(c.table) <= old(len(c.table))
+//@   ensures[C14] @unlocked lockstate(c.mu) == 0
